@@ -9,6 +9,7 @@ mod report;
 mod c10;
 mod c11;
 mod c04;
+mod c06;
 mod findings;
 
 use report::Report;
@@ -39,6 +40,7 @@ fn run_named(name: &str, tier: &str, seed: u64, standin: bool) -> String {
         (true, "gset_merge") => { c11::standin_gset_merge(&mut r); true }
         (false, "c11") => { c11::search(&mut r, tier, seed); true }
         (false, "c04") => { c04::search(&mut r, tier, seed); true }
+        (false, "c06") => { c06::search(&mut r, tier, seed); true }
         (true, "orswot_iter") => { c04::standin_orswot_iter(&mut r); true }
         _ => false,
     };
@@ -64,6 +66,7 @@ fn replay_file(path: &str) -> String {
         "c10" => { c10::search(&mut r, "thorough", 0); true }
         "c11" => { c11::search(&mut r, "thorough", 0); true }
         "c04" => { c04::search(&mut r, "thorough", 0); true }
+        "c06" => { c06::search(&mut r, "thorough", 0); true }
         "orswot_iter" => { c04::standin_orswot_iter(&mut r); true }
         "gset_merge" => { c11::standin_gset_merge(&mut r); true }
         "vclock_iter" => { c10::standin_vclock_iter(&mut r); true }
